@@ -102,7 +102,10 @@ theorem eciesDecryptC_total (pr : Prims) (d : Nat) (inp : Bytes) : eciesDecryptC
 
 /-- agreement with the total model, given that CBC decryption preserves the length (the model
 takes the primitive's output as the plaintext; the Go code takes the fresh `len(src)`-byte
-destination buffer).  Without the hypothesis: `eciesDecryptC_agrees_fit`. -/
+destination buffer).  Without the hypothesis: `eciesDecryptC_agrees_fit`.
+NOTE: this hypothesis is stronger than needed and FALSE of the executable CBC (`CryptBlocks` drops a trailing partial
+block; `PrimsExtra.real_cbcDec_len_unaligned_false`): use `C15b.eciesDecryptC_agrees_aligned` (whole blocks only, which
+is all `Decrypt` passes) and `C15b.real_eciesDecryptC_agrees` (no hypothesis, real primitives). -/
 theorem eciesDecryptC_agrees (pr : Prims) (hdec : ∀ k iv x, (pr.cbcDec k iv x).length = x.length)
     (d : Nat) (inp : Bytes) : eciesDecryptC pr d inp = ofOption (Ecies.decrypt pr d inp) :=
   eciesDecryptC_eq pr hdec d inp
